@@ -7,20 +7,13 @@ package lib
 // only ever uses time.Since(registrationTime)).
 
 import (
-	"context"
-	"errors"
 	"fmt"
 	"net"
 	"sort"
 	"strings"
-	"sync"
 	"testing"
 	"time"
 
-	"github.com/refraction-networking/conjure/pkg/core"
-	"github.com/refraction-networking/conjure/pkg/transports"
-	"google.golang.org/protobuf/types/known/anypb"
-	"verif/harness/vconn"
 
 	"github.com/refraction-networking/conjure/pkg/station/log"
 	pb "github.com/refraction-networking/conjure/proto"
@@ -66,47 +59,8 @@ type c08Case struct {
 
 var c08TT = []pb.TransportType{pb.TransportType_Min, pb.TransportType_Prefix, pb.TransportType_Obfs4, pb.TransportType_DTLS}
 
-// c08cTransport stands in for the connecting (DTLS) transport: the station dials the client when
-// the registration is ingested; the outcome of that dial is scripted per operation.
-type c08cTransport struct {
-	mu      *sync.Mutex
-	outcome map[string]string // shared secret (hex) -> outcome
-}
-
-func (c08cTransport) Name() string      { return "dtls" }
-func (c08cTransport) LogPrefix() string { return "DTLS" }
-func (c08cTransport) GetIdentifier(r transports.Registration) string {
-	return string(core.ConjureHMAC(r.SharedSecret(), "verif-connecting"))
-}
-func (c08cTransport) GetProto() pb.IPProto                        { return pb.IPProto_Udp }
-func (c08cTransport) GetDstPort(uint, []byte, any) (uint16, error) { return 443, nil }
-func (c08cTransport) ParseParams(uint, *anypb.Any) (any, error)    { return nil, nil }
-func (c08cTransport) ParamStrings(any) []string                    { return nil }
-func (t c08cTransport) Connect(ctx context.Context, reg transports.Registration) (net.Conn, error) {
-	t.mu.Lock()
-	oc := t.outcome[fmt.Sprintf("%x", reg.SharedSecret())]
-	t.mu.Unlock()
-	switch oc {
-	case "ok":
-		return vconn.New(vconn.Script{Reads: []vconn.Step{{Data: vh.Hex([]byte("hello"))}}, End: "eof", Remote: "203.0.113.77:5555"}), nil
-	case "timeout":
-		return nil, context.DeadlineExceeded
-	}
-	return nil, errors.New("error connecting to dtls client: connection refused")
-}
-
-type c08cStats struct{ done chan string }
-
-func (s *c08cStats) AddCreatedConnecting(uint, string, string)             {}
-func (s *c08cStats) AddCreatedToSuccessfulConnecting(uint, string, string) {}
-func (s *c08cStats) AddCreatedToTimeoutConnecting(uint, string, string)    { s.done <- "timeout" }
-func (s *c08cStats) AddSuccessfulToDiscardedConnecting(uint, string, string) {
-	s.done <- "ok"
-}
-func (s *c08cStats) AddOtherFailConnecting(uint, string, string) { s.done <- "fail" }
-
-var c08cOutcomes = c08cTransport{mu: &sync.Mutex{}, outcome: map[string]string{}}
-var c08cDone = &c08cStats{done: make(chan string, 64)}
+var c08cOutcomes = newVConnTransport()
+var c08cDone = newVConnStats()
 
 // c08Connecting makes the environment handle connecting-transport registrations.
 func c08Connecting(e *vEnv) {
@@ -218,9 +172,7 @@ func c08Run(e *vEnv, c c08Case) (key, msg string, stats map[string]bool) {
 			}
 		case "ingest":
 			if o.TT == 3 {
-				c08cOutcomes.mu.Lock()
-				c08cOutcomes.outcome[fmt.Sprintf("%x", reg.Keys.SharedSecret)] = o.Dial
-				c08cOutcomes.mu.Unlock()
+				c08cOutcomes.Script(reg.Keys.SharedSecret, o.Dial)
 			}
 			e.rm.ingestRegistration(reg)
 			if !exists {
